@@ -20,6 +20,9 @@ def val_text(rng, v, syms):
     k = rng.random()
     if v == -2**63:
         return '(-9223372036854775807 - 1)'
+    # a character literal stands for its code point, whatever the element width (beyond the width it is an error like any value)
+    if 32 <= v < 0x110000 and not (0xD800 <= v < 0xE000) and chr(v) not in "'\\\"" and chr(v).isprintable() and k < .12:
+        return "'%s'" % chr(v)
     if k < .2 and 0 <= v < 2**62:
         nm = 'K%d' % len(syms)
         syms.append('.equ %s = %d' % (nm, v))
@@ -82,6 +85,9 @@ def cases(tier, seed):
                 continue
             text, dt, toks = gen_line(rng, seg, syms)
             lines.append(text); reqs.append((seg, dt, toks))
+        if rng.random() < .15:
+            # the same lines as the body of a macro called once: a body may begin with a segment directive
+            lines = ['.macro blk%d' % len(out)] + lines + ['.endm', 'blk%d' % len(out)]
         src = '\n'.join((syms if rng.random() < .5 else []) + lines + ([] if syms and lines and lines[0] in syms else []))
         if syms and not src.startswith('.equ'):
             src = src + '\n' + '\n'.join(syms)
@@ -98,6 +104,12 @@ def cases(tier, seed):
                     for k in range(1, 7):     # the same boundary value written through ~, -, |, *, parentheses; alone and second in a list
                         out.append(('%s\n.%s %s' % ('.cseg' if seg == 'c' else '.eseg', dt, spell(k, v)), [(seg, dt, ['v%d' % v])]))
                     out.append(('%s\n.%s 1, %s' % ('.cseg' if seg == 'c' else '.eseg', dt, spell(1, v)), [(seg, dt, ['v1', 'v%d' % v])]))
+    # character literals of one to four UTF-8 bytes in every width: the value is the code point, not a byte of its encoding
+    for ch in ['A', '~', 'é', 'ÿ', 'Ā', 'ſ', '€', '日', '😀']:
+        for dt in RANGES:
+            for seg in 'ce':
+                out.append(("%s\n.%s '%s'" % ('.cseg' if seg == 'c' else '.eseg', dt, ch), [(seg, dt, ['v%d' % ord(ch)])]))
+                out.append(("%s\n.%s 1, '%s'+0, 2" % ('.cseg' if seg == 'c' else '.eseg', dt, ch), [(seg, dt, ['v1', 'v%d' % ord(ch), 'v2'])]))
     for k in range(1, 5):   # k odd .db lines in a row
         out.append(('\n'.join('.db %d' % (i + 1) for i in range(k)), [('c', 'db', ['v%d' % (i + 1)]) for i in range(k)]))
     return out
@@ -153,7 +165,7 @@ def run(tier, seed, model_ok):
                             'source': src, 'impl': a[:200], 'expected_code': code, 'expected_eeprom': ee, 'key': 'bytes'})
     return {
         'evaluations': len(cs), 'distinct_nontrivial': len({c[0] for c in cs}),
-        'rule': 'seeded random programs of 1..6 data lines over .cseg/.eseg (a few in .dseg), 1..5 operands per line mixing values (at/inside/just beyond the range ends of the element width; written as literals, sums, .equ symbols, through ~ - | * and parentheses), strings (empty, ASCII, non-ASCII, with comment/quote characters and backslashes), unknown symbols, .byte in EEPROM; plus the single-operand boundary sweep of every width x both range ends +-2 x both segments x 7 ways of writing the value and 1..4 odd .db lines in a row; distinct = distinct programs',
+        'rule': 'seeded random programs of 1..6 data lines over .cseg/.eseg (a few in .dseg), 1..5 operands per line mixing values (at/inside/just beyond the range ends of the element width; written as literals, sums, .equ symbols, character literals of 1..4 UTF-8 bytes, through ~ - | * and parentheses), strings (empty, ASCII, non-ASCII, with comment/quote characters and backslashes), unknown symbols, .byte in EEPROM; one program in seven as the body of a macro called once (bodies beginning with .eseg/.cseg/.dseg); plus the single-operand boundary sweep of every width x both range ends +-2 x both segments x 7 ways of writing the value and 1..4 odd .db lines in a row; distinct = distinct programs',
         'samples': [cs[0][0], cs[1][0]],
         'exhaustive': False,
         'distribution': {'programs_that_build': ok, 'programs_that_must_fail': bad, 'widths': Counter(r[1] for c in cs for r in c[1] if r[1]).most_common()},
